@@ -14,6 +14,9 @@ def binOfSym : String → Option BinSym
 def cmpOfSym : String → Option CmpSym
   | "==" => some .eq | "!=" => some .ne | "<" => some .lt | "<=" => some .le | ">" => some .gt | ">=" => some .ge | _ => none
 
+def logOfSym : String → Option LogSym
+  | "&&" => some .land | "||" => some .lor | _ => none
+
 def wrapOf : String → Option Wrap
   | "plain" => some .plain | "tainted" => some .tainted | "tvol" => some .tvol | _ => none
 
@@ -81,7 +84,17 @@ def binLine (opS : String) (lw : Wrap) (lb : BaseTy) (rw : Wrap) (rb : BaseTy) (
             | .undef => some "undef"
             | .abort => some "abort")
       | _, _ => some "abort"
-  | none, none => none
+  | none, none =>
+      match logOfSym opS with
+      | none => none
+      | some op =>
+        match mkOperand lw lb a, mkOperand rw rb b with
+        | some x, some y =>
+            (match logicalOp cppLog op x y with
+              | .ok v => some s!"ok b1 {if v then 1 else 0}"
+              | .undef => some "undef"
+              | .abort => some "abort")
+        | _, _ => some "abort"
 
 def rangeOf (t : IntTy) : Int × Int := (t.min, t.max)
 
